@@ -87,6 +87,7 @@ func (m *Machine) external(st *State, fr *Frame, instr ssa.Instruction, fn *ssa.
 		} else {
 			nv = c.IMod(c.IAdd(cur, delta), c.Int(1<<32))
 		}
+		m.frameCheck(st, fr, instr, p, "atomic add")
 		m.Store(st, p, nv)
 		m.addEvent(st, name, args, []Value{nv})
 		m.atomicAccess(st, fr, instr, p)
@@ -94,6 +95,7 @@ func (m *Machine) external(st *State, fr *Frame, instr ssa.Instruction, fn *ssa.
 	case "sync/atomic.StoreUint32":
 		use("atomic store")
 		p := args[0].(*Ptr)
+		m.frameCheck(st, fr, instr, p, "atomic store")
 		m.Store(st, p, args[1])
 		m.addEvent(st, name, args, nil)
 		m.atomicAccess(st, fr, instr, p)
@@ -250,6 +252,12 @@ func (m *Machine) lockOp(st *State, fr *Frame, instr ssa.Instruction, mu *Ptr, m
 		loc, ok := m.fieldLoc(mu, field)
 		if ok {
 			m.havocLoc(st, loc, "g."+field)
+			nv := make(map[string]Value, len(st.guardVals)+1)
+			for k, v := range st.guardVals {
+				nv[k] = v
+			}
+			nv[fmt.Sprintf("%d/%s", loc.Ref.id, loc.Path)] = m.Load(st, loc)
+			st.guardVals = nv
 			if _, isMap := loc.Elem.Underlying().(*types.Map); isMap {
 				// other goroutines may also have changed the content of a guarded map
 				ref := m.Load(st, loc).(*Term)
@@ -363,6 +371,12 @@ func (m *Machine) chanClosed(st *State, ch *Term) *Term {
 	mine := c.Select(a, ch)
 	if m.isLocalRef(st, ch) {
 		return mine
+	}
+	if m.ownedChans[ch.id] {
+		// only this function closes the channel (closer declaration, checked by scanning every close()):
+		// its closed state does not change behind our back
+		m.trusted["closer discipline: the channel in the declared field is closed only by the declared function (every close() site in the package is scanned)"] = true
+		return c.Or(mine, c.App("closedAt", BoolSort, ch, c.Int(0)))
 	}
 	t := c.App("closedAt", BoolSort, ch, c.Int(int64(st.chanVer)))
 	for _, q := range st.chanQ[ch.id] {
